@@ -19,6 +19,7 @@ from ._core import (
     aiter,
     ScopedIter,
     awaitify as _awaitify,
+    close_all,
     Sentinel,
 )
 
@@ -154,13 +155,7 @@ async def zip(
         async for items in inner:
             yield items
     finally:
-        for iterator in aiters:
-            try:
-                aclose = iterator.aclose  # type: ignore
-            except AttributeError:
-                pass
-            else:
-                await aclose()
+        await close_all(aiters)
 
 
 async def _zip_inner(
